@@ -1,8 +1,1544 @@
-use xvcommon::{Args, Report};
-pub fn run_format(_a: &Args, _r: &mut Report) {}
-pub fn run_search(_a: &Args, _r: &mut Report) {}
-pub fn run_dedup(_a: &Args, _r: &mut Report) {}
-pub fn run_setops(_a: &Args, _r: &mut Report) {}
-pub fn run_consolidate(_a: &Args, _r: &mut Report) {}
-pub fn run_keyed(_a: &Args, _r: &mut Report) {}
-pub fn run_expiry(_a: &Args, _r: &mut Report) {}
+//! C05 (truthful dedup answers), C09 (shard files answer as their model), C10 (set operations and
+//! consolidation), C18 (keyed export and expiry).
+use std::collections::{BTreeMap, BTreeSet, HashMap};
+use std::io::{Cursor, Seek, SeekFrom};
+use std::path::{Path, PathBuf};
+use std::sync::Arc;
+use std::time::Duration;
+
+use mdb_shard::cas_structs::MDBCASInfo;
+use mdb_shard::file_structs::{FileDataSequenceEntry, MDBFileInfo};
+use mdb_shard::interpolation_search::search_on_sorted_u64s;
+use mdb_shard::session_directory::consolidate_shards_in_directory;
+use mdb_shard::set_operations::{shard_file_difference, shard_file_union, shard_set_difference, shard_set_union};
+use mdb_shard::shard_in_memory::MDBInMemoryShard;
+use mdb_shard::streaming_shard::{process_shard_stream, process_shard_stream_async, MDBMinimalShard};
+use mdb_shard::{MDBShardFile, MDBShardFileFooter, MDBShardInfo, ShardFileManager};
+use merklehash::MerkleHash;
+use xvcommon::refs;
+use xvcommon::{case_iter, json, witness_base, Args, Report, Rng, Value};
+
+use crate::e_hash::{hb, mh};
+use crate::shardgen::*;
+
+type Fail = (String, String);
+
+fn fail<T>(sig: &str, msg: impl Into<String>) -> Result<T, Fail> {
+    Err((sig.to_string(), msg.into()))
+}
+
+fn ser(mem: &MDBInMemoryShard) -> Result<(MDBShardInfo, Vec<u8>), Fail> {
+    let mut v = Vec::new();
+    match MDBShardInfo::serialize_from(&mut v, mem) {
+        Ok(i) => Ok((i, v)),
+        Err(e) => fail("shard-serialize-error", format!("serialize_from failed: {e}")),
+    }
+}
+
+fn rt() -> tokio::runtime::Runtime {
+    tokio::runtime::Builder::new_current_thread().enable_all().build().unwrap()
+}
+
+fn file_bytes(f: &MDBFileInfo) -> Vec<u8> {
+    let mut v = Vec::new();
+    f.serialize(&mut v).unwrap();
+    v
+}
+fn cas_bytes(c: &MDBCASInfo) -> Vec<u8> {
+    let mut v = Vec::new();
+    c.serialize(&mut v).unwrap();
+    v
+}
+
+// ------------------------------------------------------------------------------------------
+// C09 oracle: a serialized shard vs. the model it was built from
+
+pub struct OracleOpts {
+    pub check_sizes: bool,
+    pub readers: bool,
+    pub max_lookups: usize,
+}
+
+pub fn check_shard_against_model(bytes: &[u8], model: &Model, rng: &mut Rng, o: &OracleOpts) -> Result<u64, Fail> {
+    let mut rd = Cursor::new(bytes);
+    let info = match MDBShardInfo::load_from_reader(&mut rd) {
+        Ok(i) => i,
+        Err(e) => return fail("shard-load-error", format!("load_from_reader: {e}")),
+    };
+    let mut lookups = 0u64;
+    if info.num_file_entries() != model.files.len() {
+        return fail("shard-num-files", format!("num_file_entries {} != model {}", info.num_file_entries(), model.files.len()));
+    }
+    if info.num_cas_entries() != model.cas.len() {
+        return fail("shard-num-cas", format!("num_cas_entries {} != model {}", info.num_cas_entries(), model.cas.len()));
+    }
+    // scans
+    let files = info.read_all_file_info_sections(&mut rd).map_err(|e| ("shard-scan-error".to_string(), format!("{e}")))?;
+    let want_files: Vec<&MDBFileInfo> = model.files.values().collect();
+    if files.len() != want_files.len() || files.iter().zip(want_files.iter()).any(|(a, b)| a != *b) {
+        return fail("shard-scan-files", "read_all_file_info_sections differs from model");
+    }
+    let cas = info.read_all_cas_blocks_full(&mut rd).map_err(|e| ("shard-scan-error".to_string(), format!("{e}")))?;
+    let want_cas: Vec<&MDBCASInfo> = model.cas.values().collect();
+    if cas.len() != want_cas.len() || cas.iter().zip(want_cas.iter()).any(|(a, b)| a != *b) {
+        return fail("shard-scan-cas", "read_all_cas_blocks_full differs from model");
+    }
+    let headers = info.read_all_cas_blocks(&mut rd).map_err(|e| ("shard-scan-error".to_string(), format!("{e}")))?;
+    if headers.len() != want_cas.len() || headers.iter().zip(want_cas.iter()).any(|(a, b)| a.0 != b.metadata) {
+        return fail("shard-scan-cas-headers", "read_all_cas_blocks differs from model");
+    }
+    // truncated hashes: multiset of (trunc(chunk hash), (cas entry index, chunk index))
+    let trunc = info.read_all_truncated_hashes(&mut rd).map_err(|e| ("shard-scan-error".to_string(), format!("{e}")))?;
+    let mut want_trunc: Vec<(u64, (u32, u32))> = Vec::new();
+    let mut idx = 0u32;
+    let mut cas_index_of: HashMap<MerkleHash, u32> = HashMap::new();
+    for c in model.cas.values() {
+        cas_index_of.insert(c.metadata.cas_hash, idx);
+        for (i, ch) in c.chunks.iter().enumerate() {
+            want_trunc.push((ch.chunk_hash[0], (idx, i as u32)));
+        }
+        idx += 1 + c.chunks.len() as u32;
+    }
+    let mut got_trunc = trunc.clone();
+    got_trunc.sort();
+    want_trunc.sort();
+    if got_trunc != want_trunc {
+        return fail("shard-chunk-lookup-table", "read_all_truncated_hashes differs from model");
+    }
+    if info.metadata.chunk_lookup_num_entry != 0 && trunc.windows(2).any(|w| w[0].0 > w[1].0) {
+        return fail("shard-chunk-lookup-unsorted", "chunk lookup table is not sorted by key");
+    }
+    let cl = info.read_full_cas_lookup(&mut rd).map_err(|e| ("shard-scan-error".to_string(), format!("{e}")))?;
+    let want_cl: Vec<(u64, u32)> = model.cas.values().map(|c| (c.metadata.cas_hash[0], cas_index_of[&c.metadata.cas_hash])).collect();
+    if cl != want_cl {
+        return fail("shard-cas-lookup-table", "cas lookup table differs from model");
+    }
+    // footer totals
+    let stored: u64 = model.cas.values().map(|c| c.metadata.num_bytes_in_cas as u64).sum();
+    let on_disk: u64 = model.cas.values().map(|c| c.metadata.num_bytes_on_disk as u64).sum();
+    let mat: u64 = model.files.values().map(|f| f.segments.iter().map(|s| s.unpacked_segment_bytes as u64).sum::<u64>()).sum();
+    if o.check_sizes {
+        if info.stored_bytes() != stored || info.materialized_bytes() != mat || info.stored_bytes_on_disk() != on_disk {
+            return fail("shard-footer-totals", format!("footer totals ({}, {}, {}) != model ({stored}, {mat}, {on_disk})", info.stored_bytes(), info.materialized_bytes(), info.stored_bytes_on_disk()));
+        }
+        if info.num_bytes() != bytes.len() as u64 {
+            return fail("shard-num-bytes", format!("num_bytes {} != file length {}", info.num_bytes(), bytes.len()));
+        }
+    }
+    // lookups: present file hashes
+    let file_keys: Vec<&MerkleHash> = model.files.keys().collect();
+    let nf = file_keys.len();
+    let file_probe: Vec<usize> = if nf <= o.max_lookups { (0..nf).collect() } else { (0..o.max_lookups).map(|_| rng.usize_below(nf)).collect() };
+    for i in file_probe {
+        let h = file_keys[i];
+        lookups += 1;
+        match info.get_file_reconstruction_info(&mut rd, h) {
+            Ok(Some(fi)) if fi == model.files[h] => {},
+            Ok(Some(_)) => return fail("shard-file-lookup-wrong", "file lookup returned a different record"),
+            Ok(None) => return fail("shard-file-lookup-missing", "present file hash not found"),
+            Err(e) => return fail("shard-file-lookup-error", format!("file lookup error: {e}")),
+        }
+        // an absent hash with the same 64-bit prefix
+        if rng.chance(1, 3) {
+            let a = same_prefix(rng, h);
+            if !model.files.contains_key(&a) {
+                lookups += 1;
+                match info.get_file_reconstruction_info(&mut rd, &a) {
+                    Ok(None) => {},
+                    Ok(Some(_)) => return fail("shard-file-lookup-phantom", "absent file hash (shared prefix) returned a record"),
+                    Err(e) => return fail("shard-file-lookup-error", format!("file lookup error on absent key: {e}")),
+                }
+            }
+        }
+    }
+    for _ in 0..8 {
+        let a = rand_hash(rng);
+        if !model.files.contains_key(&a) {
+            lookups += 1;
+            match info.get_file_reconstruction_info(&mut rd, &a) {
+                Ok(None) => {},
+                Ok(Some(_)) => return fail("shard-file-lookup-phantom", "absent file hash returned a record"),
+                Err(e) => return fail("shard-file-lookup-error", format!("{e}")),
+            }
+        }
+    }
+    // lookups: xorbs through the cas lookup table, then the record at the returned index
+    let cas_keys: Vec<&MerkleHash> = model.cas.keys().collect();
+    let nc = cas_keys.len();
+    let cas_probe: Vec<usize> = if nc <= o.max_lookups { (0..nc).collect() } else { (0..o.max_lookups).map(|_| rng.usize_below(nc)).collect() };
+    for i in cas_probe {
+        let h = cas_keys[i];
+        let mut dest = [0u32; 8];
+        lookups += 1;
+        let n = match info.get_cas_info_index_by_hash(&mut rd, h, &mut dest) {
+            Ok(n) => n,
+            Err(e) => return fail("shard-cas-lookup-error", format!("cas lookup error: {e}")),
+        };
+        let mut found = false;
+        for &ix in &dest[..n] {
+            rd.seek(SeekFrom::Start(info.metadata.cas_info_offset + 48 * ix as u64)).unwrap();
+            if let Ok(Some(c)) = MDBCASInfo::deserialize(&mut rd) {
+                if c.metadata.cas_hash == *h {
+                    if c != model.cas[h] {
+                        return fail("shard-cas-lookup-wrong", "cas lookup leads to a different record");
+                    }
+                    found = true;
+                }
+            }
+        }
+        if !found {
+            return fail("shard-cas-lookup-missing", "present xorb hash not found through the lookup table");
+        }
+        if rng.chance(1, 3) {
+            let a = same_prefix(rng, h);
+            if !model.cas.contains_key(&a) {
+                let n = info.get_cas_info_index_by_hash(&mut rd, &a, &mut dest).map_err(|e| ("shard-cas-lookup-error".to_string(), format!("{e}")))?;
+                for &ix in &dest[..n] {
+                    rd.seek(SeekFrom::Start(info.metadata.cas_info_offset + 48 * ix as u64)).unwrap();
+                    if let Ok(Some(c)) = MDBCASInfo::deserialize(&mut rd) {
+                        if c.metadata.cas_hash == a {
+                            return fail("shard-cas-lookup-phantom", "absent xorb hash found");
+                        }
+                    }
+                }
+            }
+        }
+    }
+    if !o.readers {
+        return Ok(lookups);
+    }
+    // streaming readers and the minimal shard must see the same records
+    let want_f: Vec<Vec<u8>> = model.files.values().map(file_bytes).collect();
+    let want_c: Vec<Vec<u8>> = model.cas.values().map(cas_bytes).collect();
+    {
+        let mut got_f = Vec::new();
+        let mut got_c = Vec::new();
+        let r = process_shard_stream(
+            &mut Cursor::new(bytes),
+            Some(|fv: mdb_shard::file_structs::MDBFileInfoView| {
+                let mut v = Vec::new();
+                fv.serialize(&mut v)?;
+                got_f.push(v);
+                Ok(())
+            }),
+            Some(|cv: mdb_shard::cas_structs::MDBCASInfoView| {
+                let mut v = Vec::new();
+                cv.serialize(&mut v)?;
+                got_c.push(v);
+                Ok(())
+            }),
+        );
+        if let Err(e) = r {
+            return fail("shard-stream-error", format!("process_shard_stream: {e}"));
+        }
+        if got_f != want_f || got_c != want_c {
+            return fail("shard-stream-differs", "process_shard_stream records differ from model");
+        }
+    }
+    {
+        let rt = rt();
+        let mut got_f = Vec::new();
+        let mut got_c = Vec::new();
+        let r = rt.block_on(async {
+            let mut ar = futures::io::Cursor::new(bytes);
+            process_shard_stream_async(
+                &mut ar,
+                Some(|fv: mdb_shard::file_structs::MDBFileInfoView| {
+                    let mut v = Vec::new();
+                    fv.serialize(&mut v)?;
+                    got_f.push(v);
+                    Ok(())
+                }),
+                Some(|cv: mdb_shard::cas_structs::MDBCASInfoView| {
+                    let mut v = Vec::new();
+                    cv.serialize(&mut v)?;
+                    got_c.push(v);
+                    Ok(())
+                }),
+            )
+            .await
+        });
+        if let Err(e) = r {
+            return fail("shard-stream-async-error", format!("process_shard_stream_async: {e}"));
+        }
+        if got_f != want_f || got_c != want_c {
+            return fail("shard-stream-async-differs", "process_shard_stream_async records differ from model");
+        }
+        let ms = MDBMinimalShard::from_reader(&mut Cursor::new(bytes), true, true).map_err(|e| ("shard-minimal-error".to_string(), format!("{e}")))?;
+        let ms2 = rt
+            .block_on(async {
+                let mut ar = futures::io::Cursor::new(bytes);
+                MDBMinimalShard::from_reader_async(&mut ar, true, true).await
+            })
+            .map_err(|e| ("shard-minimal-async-error".to_string(), format!("{e}")))?;
+        if ms != ms2 {
+            return fail("shard-minimal-sync-vs-async", "MDBMinimalShard sync and async readers differ");
+        }
+        if ms.num_files() != want_f.len() || ms.num_cas() != want_c.len() {
+            return fail("shard-minimal-counts", "MDBMinimalShard record counts differ from model");
+        }
+        for (i, f) in model.files.values().enumerate() {
+            let v = ms.file(i);
+            let mut b = Vec::new();
+            v.serialize(&mut b).unwrap();
+            if b != want_f[i] || v.file_hash() != f.metadata.file_hash || v.num_entries() != f.segments.len() {
+                return fail("shard-minimal-file", "MDBMinimalShard file view differs from model");
+            }
+            for (j, s) in f.segments.iter().enumerate().take(3) {
+                if v.entry(j) != *s {
+                    return fail("shard-minimal-file-entry", "MDBMinimalShard file entry differs");
+                }
+                if f.contains_verification() && v.verification(j) != f.verification[j] {
+                    return fail("shard-minimal-file-verification", "MDBMinimalShard verification entry differs");
+                }
+            }
+        }
+        for (i, c) in model.cas.values().enumerate() {
+            let v = ms.cas(i);
+            let mut b = Vec::new();
+            v.serialize(&mut b).unwrap();
+            if b != want_c[i] || v.cas_hash() != c.metadata.cas_hash {
+                return fail("shard-minimal-cas", "MDBMinimalShard cas view differs from model");
+            }
+            if !c.chunks.is_empty() {
+                let j = rng.usize_below(c.chunks.len());
+                if v.chunk(j) != c.chunks[j] {
+                    return fail("shard-minimal-cas-chunk", "MDBMinimalShard chunk differs");
+                }
+            }
+        }
+    }
+    Ok(lookups)
+}
+
+pub fn run_format(args: &Args, rep: &mut Report) {
+    const P: &str = "C09";
+    let scale = args.usize("scale", 4);
+    for (k, mut rng) in case_iter(args, 0xC09, 40) {
+        let p = rand_params(&mut rng, scale);
+        let model = gen_model(&mut rng, &p);
+        let mem = to_mem(&model);
+        let n_chunks: usize = model.cas.values().map(|c| c.chunks.len()).sum();
+        let w = |what: &str| {
+            let mut w = witness_base(args, "shard_fmt", k);
+            w["files"] = json!(model.files.len());
+            w["xorbs"] = json!(model.cas.len());
+            w["chunks"] = json!(n_chunks);
+            w["spaces"] = json!(format!("{:?}/{:?}/{:?}", p.file_space, p.cas_space, p.chunk_space));
+            w["what"] = json!(what);
+            w
+        };
+        let res = xvcommon::catch(|| -> Result<u64, Fail> {
+            let (_info, bytes) = ser(&mem)?;
+            if bytes.len() as u64 != mem.shard_file_size() {
+                return fail("shard-size-accounting", format!("written {} bytes, shard_file_size() {}", bytes.len(), mem.shard_file_size()));
+            }
+            check_shard_against_model(
+                &bytes,
+                &model,
+                &mut rng,
+                &OracleOpts {
+                    check_sizes: true,
+                    readers: true,
+                    max_lookups: 400,
+                },
+            )
+        });
+        match res {
+            Ok(Ok(lookups)) => {
+                rep.count(P, "lookups", lookups);
+                let sig = format!(
+                    "f{}|x{}|c{}|{:?}/{:?}/{:?}|fl{:?}",
+                    bk(model.files.len()),
+                    bk(model.cas.len()),
+                    bk(n_chunks),
+                    p.file_space,
+                    p.cas_space,
+                    p.chunk_space,
+                    p.flags
+                );
+                rep.case(P, if model.files.len() + model.cas.len() >= 2 { Some(sig) } else { None });
+                if rep.wants_sample(P) {
+                    rep.sample(P, w("sample"));
+                }
+            },
+            Ok(Err((sig, msg))) => {
+                rep.violation(P, &sig, &msg, w(&msg));
+                rep.case(P, None);
+            },
+            Err(pn) => {
+                rep.violation(P, "shard-format-panic", &pn, w(&pn));
+                rep.case(P, None);
+            },
+        }
+    }
+}
+
+fn bk(n: usize) -> u32 {
+    if n == 0 {
+        0
+    } else {
+        usize::BITS - n.leading_zeros()
+    }
+}
+
+pub fn run_search(args: &Args, rep: &mut Report) {
+    const P: &str = "C09";
+    let max_n = args.usize("max-table", 50000);
+    for (k, mut rng) in case_iter(args, 0x5EA, 60) {
+        let n = match rng.below(8) {
+            0 => rng.urange(0, 3),
+            1 => rng.urange(250, 262),
+            _ => rng.log_range(1, max_n as u64) as usize,
+        };
+        let class = rng.below(5);
+        let mut keys: Vec<u64> = Vec::with_capacity(n);
+        let base = rng.next_u64();
+        let mut kg = KeyGen::new(&mut rng, [KeySpace::Uniform, KeySpace::Clustered, KeySpace::Extremes, KeySpace::Collisions][(class % 4) as usize], 7);
+        let _ = base;
+        if class == 4 {
+            // all equal (up to the result capacity - 1) or few distinct values
+            let v = *rng.pick(&[0u64, u64::MAX, 1 << 63, 12345]);
+            let m = n.min(7);
+            keys.extend(std::iter::repeat(v).take(m));
+            for _ in m..n {
+                keys.push(rng.next_u64());
+            }
+        } else {
+            let mut cnt: HashMap<u64, usize> = HashMap::new();
+            while keys.len() < n {
+                let w = kg.word0(&mut rng);
+                let c = cnt.entry(w).or_insert(0);
+                if *c < 7 {
+                    *c += 1;
+                    keys.push(w);
+                }
+            }
+        }
+        let mut pairs: Vec<(u64, u32)> = keys.iter().enumerate().map(|(i, k)| (*k, i as u32)).collect();
+        pairs.sort_by_key(|p| p.0);
+        let start_pad = rng.urange(0, 40);
+        let mut data = vec![0xAAu8; start_pad];
+        for (k2, v) in &pairs {
+            data.extend_from_slice(&k2.to_le_bytes());
+            data.extend_from_slice(&v.to_le_bytes());
+        }
+        data.extend_from_slice(&[0x55u8; 16]);
+        let mut expect: BTreeMap<u64, BTreeSet<u32>> = BTreeMap::new();
+        for (k2, v) in &pairs {
+            expect.entry(*k2).or_default().insert(*v);
+        }
+        let w = |what: String, key: u64| {
+            let mut w = witness_base(args, "shard_search", k);
+            w["n"] = json!(n);
+            w["class"] = json!(class);
+            w["key"] = json!(format!("{key:#x}"));
+            w["what"] = json!(what);
+            w
+        };
+        let mut queries: Vec<u64> = expect.keys().cloned().collect();
+        let present: Vec<u64> = queries.clone();
+        for k2 in present.iter().take(3000) {
+            queries.push(k2.wrapping_add(1));
+            queries.push(k2.wrapping_sub(1));
+        }
+        queries.extend_from_slice(&[0, 1, u64::MAX, u64::MAX - 1, 1 << 63]);
+        for _ in 0..50 {
+            queries.push(rng.next_u64());
+        }
+        let mut bad = false;
+        let mut nq = 0u64;
+        for q in queries {
+            let mut dest = [0u32; 8];
+            let r = xvcommon::catch(|| {
+                search_on_sorted_u64s(&mut Cursor::new(&data), start_pad as u64, n as u64, q, utils::serialization_utils::read_u32::<Cursor<&Vec<u8>>>, &mut dest)
+            });
+            nq += 1;
+            match r {
+                Ok(Ok(cnt)) => {
+                    let got: BTreeSet<u32> = dest[..cnt.min(8)].iter().cloned().collect();
+                    let want = expect.get(&q).cloned().unwrap_or_default();
+                    if got != want || cnt != want.len() {
+                        rep.violation(P, "search-wrong-result", "search_on_sorted_u64s returned a wrong value set", w(format!("got {got:?} want {want:?}"), q));
+                        bad = true;
+                        break;
+                    }
+                },
+                Ok(Err(e)) => {
+                    rep.violation(P, "search-io-error", &format!("search_on_sorted_u64s error: {e}"), w(format!("{e}"), q));
+                    bad = true;
+                    break;
+                },
+                Err(pn) => {
+                    rep.violation(P, "search-panic", &pn, w(pn.clone(), q));
+                    bad = true;
+                    break;
+                },
+            }
+        }
+        rep.count(P, "search_queries", nq);
+        if n > 256 {
+            rep.count(P, "tables_beyond_read_window", 1);
+        }
+        rep.case(P, if bad || n < 2 { None } else { Some(format!("search|n{}|c{class}", bk(n))) });
+    }
+}
+
+// ------------------------------------------------------------------------------------------
+// C05
+
+pub type Truth = HashMap<MerkleHash, Vec<(MerkleHash, u32)>>;
+
+pub fn truth_of(m: &Model) -> Truth {
+    m.cas.values().map(|c| (c.metadata.cas_hash, c.chunks.iter().map(|x| (x.chunk_hash, x.unpacked_segment_bytes)).collect())).collect()
+}
+
+pub fn check_answer(truth: &Truth, q: &[MerkleHash], ans: &Option<(usize, FileDataSequenceEntry)>) -> Result<bool, Fail> {
+    let Some((n, e)) = ans else {
+        return Ok(false);
+    };
+    if *n == 0 {
+        return fail("dedup-zero-match", "answer reports a match of 0 chunks");
+    }
+    if *n > q.len() {
+        return fail("dedup-too-many", format!("answer matches {n} > query length {}", q.len()));
+    }
+    let Some(x) = truth.get(&e.cas_hash) else {
+        return fail("dedup-unknown-xorb", "answer names a xorb that was never added");
+    };
+    let (a, b) = (e.chunk_index_start as usize, e.chunk_index_end as usize);
+    if b < a || b - a != *n || b > x.len() {
+        return fail("dedup-bad-range", format!("answer range [{a},{b}) inconsistent with n={n} / xorb of {} chunks", x.len()));
+    }
+    let mut bytes = 0u64;
+    for i in 0..*n {
+        if x[a + i].0 != q[i] {
+            return fail("dedup-wrong-hash", format!("xorb chunk {} is not query hash {i}", a + i));
+        }
+        bytes += x[a + i].1 as u64;
+    }
+    if bytes != e.unpacked_segment_bytes as u64 {
+        return fail("dedup-wrong-bytes", format!("reported {} bytes, chunks sum to {bytes}", e.unpacked_segment_bytes));
+    }
+    Ok(true)
+}
+
+pub struct QueryGen {
+    xorbs: Vec<MerkleHash>,
+    prefix_mult: HashMap<u64, usize>,
+}
+
+impl QueryGen {
+    pub fn new(truth: &Truth) -> Self {
+        let mut prefix_mult: HashMap<u64, usize> = HashMap::new();
+        let mut xorbs: Vec<MerkleHash> = truth.keys().cloned().collect();
+        xorbs.sort();
+        for v in truth.values() {
+            for (h, _) in v {
+                *prefix_mult.entry(h[0]).or_insert(0) += 1;
+            }
+        }
+        QueryGen { xorbs, prefix_mult }
+    }
+    /// returns (query, kind)
+    pub fn gen(&self, rng: &mut Rng, truth: &Truth) -> (Vec<MerkleHash>, &'static str) {
+        let nonempty: Vec<&MerkleHash> = self.xorbs.iter().filter(|x| !truth[*x].is_empty()).collect();
+        if nonempty.is_empty() || rng.chance(1, 10) {
+            return ((0..rng.urange(1, 5)).map(|_| rand_hash(rng)).collect(), "absent");
+        }
+        let x = &truth[*rng.pick(&nonempty)];
+        let a = rng.usize_below(x.len());
+        match rng.below(6) {
+            0 => {
+                let l = rng.urange(1, x.len() - a);
+                (x[a..a + l].iter().map(|c| c.0).collect(), "run")
+            },
+            1 => {
+                // continue past the xorb end
+                let mut q: Vec<MerkleHash> = x[a..].iter().map(|c| c.0).collect();
+                let y = &truth[*rng.pick(&nonempty)];
+                q.extend(y.iter().take(rng.urange(1, 4)).map(|c| c.0));
+                (q, "past-end")
+            },
+            2 => {
+                let l = rng.urange(1, x.len() - a);
+                let mut q: Vec<MerkleHash> = x[a..a + l].iter().map(|c| c.0).collect();
+                let kdiv = rng.usize_below(q.len());
+                q[kdiv] = if rng.chance(1, 2) { same_prefix(rng, &q[kdiv]) } else { rand_hash(rng) };
+                (q, "diverge")
+            },
+            3 => (vec![same_prefix(rng, &x[a].0)], "absent-shared-prefix"),
+            4 => (vec![x[a].0], "single"),
+            _ => {
+                let l = rng.urange(1, (x.len() - a).min(6));
+                let mut q: Vec<MerkleHash> = x[a..a + l].iter().map(|c| c.0).collect();
+                q.push(rand_hash(rng));
+                (q, "run-then-random")
+            },
+        }
+    }
+    pub fn collides(&self, h: &MerkleHash) -> bool {
+        self.prefix_mult.get(&h[0]).copied().unwrap_or(0) >= 2
+    }
+}
+
+fn c05_params(rng: &mut Rng) -> GenParams {
+    let spaces = [KeySpace::Uniform, KeySpace::Collisions, KeySpace::Collisions, KeySpace::Extremes];
+    GenParams {
+        n_cas: rng.urange(1, 25),
+        max_chunks_per_cas: *rng.pick(&[6usize, 60, 400, 2500]),
+        n_files: rng.urange(0, 5),
+        cas_space: KeySpace::Uniform,
+        chunk_space: *rng.pick(&spaces),
+        file_space: KeySpace::Uniform,
+        max_group_keys: 3,
+        max_group_chunks: *rng.pick(&[2usize, 5, 9, 14]),
+        dup_chunks: rng.chance(2, 3),
+        flags: None,
+    }
+}
+
+fn write_model_shard(dir: &Path, m: &Model) -> Result<PathBuf, Fail> {
+    to_mem(m).write_to_directory(dir).map_err(|e| ("shard-write-error".to_string(), format!("{e}")))
+}
+
+pub fn run_dedup(args: &Args, rep: &mut Report) {
+    const P: &str = "C05";
+    let nq = args.usize("queries", 300);
+    let rt = rt();
+    for (k, mut rng) in case_iter(args, 0xC05, 30) {
+        let mut p = c05_params(&mut rng);
+        let big_offsets = rng.chance(1, 12);
+        if big_offsets {
+            // a xorb with more than 65535 chunks (chunk offsets beyond the manager's u16 filter)
+            p.n_cas = 2;
+            p.max_chunks_per_cas = 70000;
+        }
+        let mut model = gen_model(&mut rng, &p);
+        if big_offsets {
+            let h = rand_hash(&mut rng);
+            let mut ck = KeyGen::new(&mut rng, KeySpace::Uniform, 2);
+            let mut pool = Vec::new();
+            let nbig = 66000 + rng.urange(0, 3000);
+            let c = gen_cas(&mut rng, h, nbig, &mut ck, &mut pool, false);
+            model.cas.insert(h, c);
+        }
+        let truth = truth_of(&model);
+        let qg = QueryGen::new(&truth);
+        let layer = k % 3;
+        let w = |what: &str, kind: &str| {
+            let mut w = witness_base(args, "shard_dedup", k);
+            w["layer"] = json!(["in-memory", "serialized", "manager"][layer as usize]);
+            w["xorbs"] = json!(model.cas.len());
+            w["query_kind"] = json!(kind);
+            w["what"] = json!(what);
+            w
+        };
+        let mut hits = 0u64;
+        let mut partial = 0u64;
+        let mut coll = 0u64;
+        let mut misses = 0u64;
+        let mut record = |q: &[MerkleHash], kind: &'static str, ans: Result<Option<(usize, FileDataSequenceEntry)>, String>, rep: &mut Report, op: &str| -> bool {
+            match ans {
+                Err(e) => {
+                    // an error (e.g. more than 7 colliding file keys) is not an answer; count it
+                    rep.count(P, "query_errors", 1);
+                    let _ = e;
+                    true
+                },
+                Ok(a) => match check_answer(&truth, q, &a) {
+                    Ok(true) => {
+                        let n = a.as_ref().unwrap().0;
+                        hits += 1;
+                        if n < q.len() {
+                            partial += 1;
+                        }
+                        if qg.collides(&q[0]) {
+                            coll += 1;
+                        }
+                        true
+                    },
+                    Ok(false) => {
+                        misses += 1;
+                        true
+                    },
+                    Err((sig, msg)) => {
+                        rep.violation(P, &sig, &msg, w(&format!("{msg} (after {op})"), kind));
+                        false
+                    },
+                },
+            }
+        };
+        let mut ok = true;
+        let res = xvcommon::catch(|| -> Result<(), Fail> {
+            match layer {
+                0 => {
+                    let mem = to_mem(&model);
+                    for _ in 0..nq {
+                        let (q, kind) = qg.gen(&mut rng, &truth);
+                        ok &= record(&q, kind, Ok(mem.chunk_hash_dedup_query(&q)), rep, "in-memory");
+                    }
+                },
+                1 => {
+                    let (info, bytes) = ser(&to_mem(&model))?;
+                    let mut rd = Cursor::new(&bytes);
+                    for _ in 0..nq {
+                        let (q, kind) = qg.gen(&mut rng, &truth);
+                        let a = info.chunk_hash_dedup_query(&mut rd, &q).map_err(|e| format!("{e}"));
+                        ok &= record(&q, kind, a, rep, "serialized");
+                    }
+                },
+                _ => {
+                    // history against a ShardFileManager over a directory
+                    let dir = tempfile::tempdir().map_err(|e| ("io".to_string(), format!("{e}")))?;
+                    let other = tempfile::tempdir().map_err(|e| ("io".to_string(), format!("{e}")))?;
+                    let all_cas: Vec<MDBCASInfo> = model.cas.values().cloned().collect();
+                    let mut pending: Vec<MDBCASInfo> = all_cas.clone();
+                    rng.shuffle(&mut pending);
+                    let mut mgr: Arc<ShardFileManager> = rt
+                        .block_on(ShardFileManager::new_in_session_directory(dir.path()))
+                        .map_err(|e| ("manager-open".to_string(), format!("{e}")))?;
+                    let mut ops_done: Vec<String> = Vec::new();
+                    let mut keys_used = 0usize;
+                    let steps = rng.urange(3, 10);
+                    for step in 0..steps {
+                        let op = if step == 0 { 0 } else { rng.below(6) };
+                        let opname;
+                        match op {
+                            0 | 1 => {
+                                opname = "add";
+                                let take = rng.urange(1, 4).min(pending.len());
+                                for _ in 0..take {
+                                    let c = pending.pop().unwrap();
+                                    rt.block_on(mgr.add_cas_block(c)).map_err(|e| ("manager-add".to_string(), format!("{e}")))?;
+                                }
+                                // sometimes re-add an old block (history, not content)
+                                if rng.chance(1, 4) {
+                                    let c = rng.pick(&all_cas).clone();
+                                    if !pending.iter().any(|p2| p2.metadata.cas_hash == c.metadata.cas_hash) {
+                                        rt.block_on(mgr.add_cas_block(c)).map_err(|e| ("manager-add".to_string(), format!("{e}")))?;
+                                    }
+                                }
+                            },
+                            2 => {
+                                opname = "flush";
+                                rt.block_on(mgr.flush()).map_err(|e| ("manager-flush".to_string(), format!("{e}")))?;
+                            },
+                            3 => {
+                                opname = "register-external";
+                                // a shard written by "someone else" into the directory, then registered
+                                let take = rng.urange(1, 3).min(pending.len());
+                                let mut sub = Model::default();
+                                for _ in 0..take {
+                                    let c = pending.pop().unwrap();
+                                    sub.cas.insert(c.metadata.cas_hash, c);
+                                }
+                                if !sub.cas.is_empty() {
+                                    let pth = write_model_shard(dir.path(), &sub)?;
+                                    rt.block_on(mgr.register_shards_by_path(&[pth])).map_err(|e| ("manager-register".to_string(), format!("{e}")))?;
+                                }
+                            },
+                            4 => {
+                                opname = "consolidate-reopen";
+                                rt.block_on(mgr.flush()).map_err(|e| ("manager-flush".to_string(), format!("{e}")))?;
+                                let target = *rng.pick(&[1u64, 2000, 100_000, 64 << 20]);
+                                consolidate_shards_in_directory(dir.path(), target).map_err(|e| ("consolidate".to_string(), format!("{e}")))?;
+                                mgr = rt
+                                    .block_on(ShardFileManager::new_in_session_directory(dir.path()))
+                                    .map_err(|e| ("manager-open".to_string(), format!("{e}")))?;
+                            },
+                            _ => {
+                                opname = "keyed-export";
+                                // export one registered shard under an HMAC key into the directory
+                                rt.block_on(mgr.flush()).map_err(|e| ("manager-flush".to_string(), format!("{e}")))?;
+                                let shards = MDBShardFile::load_all_valid(dir.path()).map_err(|e| ("load".to_string(), format!("{e}")))?;
+                                let unkeyed: Vec<_> = shards.iter().filter(|s| s.chunk_hmac_key().is_none()).collect();
+                                if !unkeyed.is_empty() && keys_used < 3 {
+                                    keys_used += 1;
+                                    let s = *rng.pick(&unkeyed);
+                                    let key = rand_hash(&mut rng);
+                                    let exported = s
+                                        .export_as_keyed_shard(other.path(), key, Duration::from_secs(3600), rng.chance(1, 2), rng.chance(1, 2), rng.chance(1, 2))
+                                        .map_err(|e| ("keyed-export".to_string(), format!("{e}")))?;
+                                    // replace the original by its keyed form
+                                    let dest = dir.path().join(exported.path.file_name().unwrap());
+                                    std::fs::copy(&exported.path, &dest).map_err(|e| ("io".to_string(), format!("{e}")))?;
+                                    std::fs::remove_file(&s.path).ok();
+                                    mgr = rt
+                                        .block_on(ShardFileManager::new_in_session_directory(dir.path()))
+                                        .map_err(|e| ("manager-open".to_string(), format!("{e}")))?;
+                                }
+                            },
+                        }
+                        ops_done.push(opname.to_string());
+                        for _ in 0..(nq / steps).max(10) {
+                            let (q, kind) = qg.gen(&mut rng, &truth);
+                            let a = rt.block_on(mgr.chunk_hash_dedup_query(&q)).map_err(|e| format!("{e}"));
+                            ok &= record(&q, kind, a, rep, &ops_done.join(","));
+                        }
+                    }
+                    for o in ops_done {
+                        rep.count(P, &format!("manager_op_{o}"), 1);
+                    }
+                },
+            }
+            Ok(())
+        });
+        match res {
+            Ok(Ok(())) => {},
+            Ok(Err((sig, msg))) => {
+                // harness-side operation failed (not an answer): inconclusive for this case
+                rep.inconclusive(P, &format!("{sig}: {msg}"));
+                continue;
+            },
+            Err(pn) => {
+                rep.violation(P, "dedup-panic", &pn, w(&pn, "?"));
+                ok = false;
+            },
+        }
+        rep.count(P, "hits", hits);
+        rep.count(P, "partial_hits", partial);
+        rep.count(P, "collision_resolved_hits", coll);
+        rep.count(P, "misses", misses);
+        let sig = format!("L{layer}|x{}|{:?}|g{}|dup{}|big{}|h{}p{}c{}", bk(model.cas.len()), p.chunk_space, p.max_group_chunks, p.dup_chunks as u8, big_offsets as u8, (hits > 0) as u8, (partial > 0) as u8, (coll > 0) as u8);
+        rep.case(P, if ok && hits > 0 { Some(sig) } else { None });
+        if rep.wants_sample(P) && ok {
+            let mut s = w("sample", "-");
+            s["hits"] = json!(hits);
+            s["partial_hits"] = json!(partial);
+            s["collision_resolved_hits"] = json!(coll);
+            s["misses"] = json!(misses);
+            rep.sample(P, s);
+        }
+    }
+}
+
+// ------------------------------------------------------------------------------------------
+// C10
+
+static UNION_SIZE_MISMATCH: std::sync::atomic::AtomicU64 = std::sync::atomic::AtomicU64::new(0);
+fn rep_note_union_size_mismatch() {
+    UNION_SIZE_MISMATCH.fetch_add(1, std::sync::atomic::Ordering::Relaxed);
+}
+
+/// universe of "full" records; shards take subsets with flag subsets
+struct Universe {
+    files: Vec<MDBFileInfo>,
+    cas: Vec<MDBCASInfo>,
+}
+
+fn gen_universe(rng: &mut Rng, nf: usize, nc: usize) -> Universe {
+    let p = GenParams {
+        n_cas: nc,
+        max_chunks_per_cas: *rng.pick(&[3usize, 30, 200]),
+        n_files: nf,
+        cas_space: *rng.pick(&[KeySpace::Uniform, KeySpace::Collisions, KeySpace::Extremes]),
+        chunk_space: *rng.pick(&[KeySpace::Uniform, KeySpace::Collisions]),
+        file_space: *rng.pick(&[KeySpace::Uniform, KeySpace::Collisions, KeySpace::Extremes]),
+        max_group_keys: rng.urange(2, 7),
+        max_group_chunks: 5,
+        dup_chunks: rng.chance(1, 2),
+        flags: Some((true, true)),
+    };
+    let m = gen_model(rng, &p);
+    Universe {
+        files: m.files.into_values().collect(),
+        cas: m.cas.into_values().collect(),
+    }
+}
+
+fn strip(f: &MDBFileInfo, keep_ver: bool, keep_meta: bool) -> MDBFileInfo {
+    let mut g = f.clone();
+    if !keep_ver {
+        g.verification.clear();
+        g.metadata.file_flags &= !mdb_shard::file_structs::MDB_FILE_FLAG_WITH_VERIFICATION;
+    }
+    if !keep_meta {
+        g.metadata_ext = None;
+        g.metadata.file_flags &= !mdb_shard::file_structs::MDB_FILE_FLAG_WITH_METADATA_EXT;
+    }
+    g
+}
+
+fn subset(rng: &mut Rng, u: &Universe, frac_num: u64) -> Model {
+    let mut m = Model::default();
+    for f in &u.files {
+        if rng.chance(frac_num, 4) {
+            let g = strip(f, rng.chance(1, 2), rng.chance(1, 2));
+            m.files.insert(g.metadata.file_hash, g);
+        }
+    }
+    for c in &u.cas {
+        if rng.chance(frac_num, 4) {
+            m.cas.insert(c.metadata.cas_hash, c.clone());
+        }
+    }
+    m
+}
+
+fn model_union(a: &Model, b: &Model, u: &Universe) -> Model {
+    let mut m = a.clone();
+    for (k, c) in &b.cas {
+        m.cas.entry(*k).or_insert_with(|| c.clone());
+    }
+    for (k, f) in &b.files {
+        match m.files.get(k) {
+            None => {
+                m.files.insert(*k, f.clone());
+            },
+            Some(g) => {
+                let full = u.files.iter().find(|x| x.metadata.file_hash == *k).unwrap();
+                let r = strip(full, g.contains_verification() || f.contains_verification(), g.contains_metadata_ext() || f.contains_metadata_ext());
+                m.files.insert(*k, r);
+            },
+        }
+    }
+    m
+}
+
+fn model_difference(a: &Model, b: &Model) -> Model {
+    // records of b not in a
+    Model {
+        files: b.files.iter().filter(|(k, _)| !a.files.contains_key(*k)).map(|(k, v)| (*k, v.clone())).collect(),
+        cas: b.cas.iter().filter(|(k, _)| !a.cas.contains_key(*k)).map(|(k, v)| (*k, v.clone())).collect(),
+    }
+}
+
+pub fn run_setops(args: &Args, rep: &mut Report) {
+    const P: &str = "C10";
+    run_setops_inner(args, rep);
+    rep.count(P, "observed_union_size_estimate_mismatches_not_claimed", UNION_SIZE_MISMATCH.load(std::sync::atomic::Ordering::Relaxed));
+}
+
+fn run_setops_inner(args: &Args, rep: &mut Report) {
+    const P: &str = "C10";
+    for (k, mut rng) in case_iter(args, 0xC10, 60) {
+        let nf = rng.urange(0, 40);
+        let nc = rng.urange(0, 20);
+        let u = gen_universe(&mut rng, nf, nc);
+        let rel = rng.below(5);
+        let (a, b) = match rel {
+            0 => {
+                let a = subset(&mut rng, &u, 2);
+                (a.clone(), a)
+            },
+            1 => (subset(&mut rng, &u, 2), Model::default()),
+            2 => (Model::default(), subset(&mut rng, &u, 3)),
+            3 => {
+                // disjoint halves
+                let a = subset(&mut rng, &u, 2);
+                let mut b = subset(&mut rng, &u, 4);
+                b.files.retain(|k2, _| !a.files.contains_key(k2));
+                b.cas.retain(|k2, _| !a.cas.contains_key(k2));
+                (a, b)
+            },
+            _ => (subset(&mut rng, &u, 3), subset(&mut rng, &u, 3)),
+        };
+        let common_files = a.files.keys().filter(|k2| b.files.contains_key(*k2)).count();
+        let flag_pairs: BTreeSet<(u32, u32)> =
+            a.files.iter().filter_map(|(k2, f)| b.files.get(k2).map(|g| (f.metadata.file_flags >> 30, g.metadata.file_flags >> 30))).collect();
+        let w = |what: &str| {
+            let mut w = witness_base(args, "shard_setops", k);
+            w["a"] = json!([a.files.len(), a.cas.len()]);
+            w["b"] = json!([b.files.len(), b.cas.len()]);
+            w["relation"] = json!(rel);
+            w["what"] = json!(what);
+            w
+        };
+        let opts = OracleOpts {
+            check_sizes: false,
+            readers: false,
+            max_lookups: 200,
+        };
+        let res = xvcommon::catch(|| -> Result<(), Fail> {
+            let (ma, mb) = (to_mem(&a), to_mem(&b));
+            let (ia, ba) = ser(&ma)?;
+            let (ib, bb) = ser(&mb)?;
+            let want_u = model_union(&a, &b, &u);
+            let want_d = model_difference(&a, &b);
+            let tag = |r: Result<u64, Fail>, pre: &str| r.map_err(|(s, m2)| (format!("{pre}-{s}"), format!("{pre}: {m2}")));
+            // in-memory forms
+            let mu = ma.union(&mb).map_err(|e| ("union-mem-error".to_string(), format!("{e}")))?;
+            let (_, bytes_mu) = ser(&mu)?;
+            tag(check_shard_against_model(&bytes_mu, &want_u, &mut rng, &OracleOpts { check_sizes: true, readers: false, max_lookups: 200 }), "union-mem")?;
+            // (shard_file_size() of a union is not compared: with duplicate chunk hashes the in-memory
+            // recalculation counts distinct chunk hashes while serialization writes one lookup entry per
+            // chunk; the property's size clause is about shards built from distinct records, see DESIGN.)
+            if bytes_mu.len() as u64 != mu.shard_file_size() {
+                rep_note_union_size_mismatch();
+            }
+            let md = ma.difference(&mb).map_err(|e| ("difference-mem-error".to_string(), format!("{e}")))?;
+            let (_, bytes_md) = ser(&md)?;
+            tag(check_shard_against_model(&bytes_md, &want_d, &mut rng, &OracleOpts { check_sizes: true, readers: false, max_lookups: 200 }), "difference-mem")?;
+            // serialized forms
+            let mut out_u = Vec::new();
+            let iu = shard_set_union(&ia, &mut Cursor::new(&ba), &ib, &mut Cursor::new(&bb), &mut out_u).map_err(|e| ("union-disk-error".to_string(), format!("{e}")))?;
+            tag(check_shard_against_model(&out_u, &want_u, &mut rng, &opts), "union-disk")?;
+            let reloaded = MDBShardInfo::load_from_reader(&mut Cursor::new(&out_u)).map_err(|e| ("union-disk-reload".to_string(), format!("{e}")))?;
+            if reloaded.metadata != iu.metadata {
+                return fail("union-disk-footer", "footer returned by shard_set_union differs from the footer written");
+            }
+            if iu.metadata.footer_offset + 200 != out_u.len() as u64 {
+                return fail("union-disk-footer-offset", "footer_offset + footer size != output length");
+            }
+            // totals of the on-disk union must equal those of the model
+            let stored: u64 = want_u.cas.values().map(|c| c.metadata.num_bytes_in_cas as u64).sum();
+            let mat: u64 = want_u.files.values().map(|f| f.segments.iter().map(|s| s.unpacked_segment_bytes as u64).sum::<u64>()).sum();
+            if iu.stored_bytes() != stored || iu.materialized_bytes() != mat {
+                return fail("union-disk-totals", format!("on-disk union totals ({}, {}) != model ({stored}, {mat})", iu.stored_bytes(), iu.materialized_bytes()));
+            }
+            let mut out_d = Vec::new();
+            let id = shard_set_difference(&ia, &mut Cursor::new(&ba), &ib, &mut Cursor::new(&bb), &mut out_d).map_err(|e| ("difference-disk-error".to_string(), format!("{e}")))?;
+            tag(check_shard_against_model(&out_d, &want_d, &mut rng, &opts), "difference-disk")?;
+            let stored: u64 = want_d.cas.values().map(|c| c.metadata.num_bytes_in_cas as u64).sum();
+            let mat: u64 = want_d.files.values().map(|f| f.segments.iter().map(|s| s.unpacked_segment_bytes as u64).sum::<u64>()).sum();
+            if id.stored_bytes() != stored || id.materialized_bytes() != mat {
+                return fail("difference-disk-totals", "on-disk difference totals differ from model");
+            }
+            // file forms (every 4th case)
+            if k % 4 == 0 {
+                let dir = tempfile::tempdir().map_err(|e| ("io".to_string(), format!("{e}")))?;
+                let (fa, fb, fo, fd) = (dir.path().join("a.bin"), dir.path().join("b.bin"), dir.path().join("u.bin"), dir.path().join("d.bin"));
+                std::fs::write(&fa, &ba).unwrap();
+                std::fs::write(&fb, &bb).unwrap();
+                let (hu, _) = shard_file_union(&fa, &fb, &fo).map_err(|e| ("union-file-error".to_string(), format!("{e}")))?;
+                let got = std::fs::read(&fo).unwrap();
+                if hb(&hu) != refs::leaf_hash(&got) {
+                    return fail("union-file-hash", "shard_file_union returned a hash that is not the hash of the file written");
+                }
+                tag(check_shard_against_model(&got, &want_u, &mut rng, &opts), "union-file")?;
+                let (hd, _) = shard_file_difference(&fa, &fb, &fd).map_err(|e| ("difference-file-error".to_string(), format!("{e}")))?;
+                let got = std::fs::read(&fd).unwrap();
+                if hb(&hd) != refs::leaf_hash(&got) {
+                    return fail("difference-file-hash", "shard_file_difference returned a wrong hash");
+                }
+                tag(check_shard_against_model(&got, &want_d, &mut rng, &opts), "difference-file")?;
+                let leftovers: Vec<_> = std::fs::read_dir(dir.path()).unwrap().filter_map(|e| e.ok()).map(|e| e.file_name().to_string_lossy().to_string()).filter(|n| n.ends_with("mdb_temp")).collect();
+                if !leftovers.is_empty() {
+                    return fail("setop-file-temp-left", "temporary file left behind by shard_file_op");
+                }
+            }
+            Ok(())
+        });
+        match res {
+            Ok(Ok(())) => {
+                let sig = format!("rel{rel}|cf{}|fp{:?}|a{}b{}", bk(common_files), flag_pairs, bk(a.files.len() + a.cas.len()), bk(b.files.len() + b.cas.len()));
+                rep.case(P, if a.files.len() + a.cas.len() + b.files.len() + b.cas.len() >= 2 { Some(sig) } else { None });
+                rep.count(P, "setop_pairs", 1);
+                rep.count(P, "common_files_merged", common_files as u64);
+                for fp in flag_pairs {
+                    rep.count(P, &format!("flagpair_{}_{}", fp.0, fp.1), 1);
+                }
+                if rep.wants_sample(P) {
+                    rep.sample(P, w("sample"));
+                }
+            },
+            Ok(Err((sig, msg))) => {
+                rep.violation(P, &sig, &msg, w(&msg));
+                rep.case(P, None);
+            },
+            Err(pn) => {
+                rep.violation(P, "setop-panic", &pn, w(&pn));
+                rep.case(P, None);
+            },
+        }
+    }
+}
+
+fn dir_shards(dir: &Path) -> BTreeMap<String, Vec<u8>> {
+    let mut m = BTreeMap::new();
+    if let Ok(rd) = std::fs::read_dir(dir) {
+        for e in rd.flatten() {
+            let n = e.file_name().to_string_lossy().to_string();
+            if n.ends_with(".mdb") {
+                if let Ok(b) = std::fs::read(e.path()) {
+                    m.insert(n, b);
+                }
+            }
+        }
+    }
+    m
+}
+
+/// all records retrievable from a set of shard byte strings (by scanning)
+fn records_of(shards: &[&Vec<u8>]) -> Result<(BTreeMap<MerkleHash, Vec<MDBFileInfo>>, BTreeMap<MerkleHash, MDBCASInfo>), Fail> {
+    let mut files: BTreeMap<MerkleHash, Vec<MDBFileInfo>> = BTreeMap::new();
+    let mut cas = BTreeMap::new();
+    for b in shards {
+        let mut rd = Cursor::new(b.as_slice());
+        let info = MDBShardInfo::load_from_reader(&mut rd).map_err(|e| ("consolidate-unreadable-shard".to_string(), format!("{e}")))?;
+        for f in info.read_all_file_info_sections(&mut rd).map_err(|e| ("consolidate-unreadable-shard".to_string(), format!("{e}")))? {
+            files.entry(f.metadata.file_hash).or_default().push(f);
+        }
+        for c in info.read_all_cas_blocks_full(&mut rd).map_err(|e| ("consolidate-unreadable-shard".to_string(), format!("{e}")))? {
+            cas.insert(c.metadata.cas_hash, c);
+        }
+    }
+    Ok((files, cas))
+}
+
+pub fn run_consolidate(args: &Args, rep: &mut Report) {
+    const P: &str = "C10";
+    for (k, mut rng) in case_iter(args, 0xC0A, 30) {
+        let nf = rng.urange(0, 60);
+        let nc = rng.urange(0, 30);
+        let u = gen_universe(&mut rng, nf, nc);
+        let n_shards = match rng.below(6) {
+            0 => 0,
+            1 => 1,
+            _ => rng.urange(2, 40),
+        };
+        let dir = tempfile::tempdir().unwrap();
+        let mut models = Vec::new();
+        for i in 0..n_shards {
+            let m = match rng.below(8) {
+                0 => Model::default(),
+                1 if !models.is_empty() => {
+                    let m: &Model = rng.pick(&models);
+                    m.clone()
+                },
+                _ => {
+                    let fr = rng.range(1, 3);
+                    subset(&mut rng, &u, fr)
+                },
+            };
+            if write_model_shard(dir.path(), &m).is_err() {
+                continue;
+            }
+            let _ = i;
+            models.push(m);
+        }
+        // a leftover temp file and a foreign file must be ignored
+        if rng.chance(1, 3) {
+            std::fs::write(dir.path().join(".deadbeef.mdb_temp"), b"partial").unwrap();
+            std::fs::write(dir.path().join("README.txt"), b"hello").unwrap();
+        }
+        let before = dir_shards(dir.path());
+        let sizes: Vec<u64> = before.values().map(|b| b.len() as u64).collect();
+        let total: u64 = sizes.iter().sum();
+        let maxs = sizes.iter().max().copied().unwrap_or(0);
+        let target = match rng.below(5) {
+            0 => 1,
+            1 => maxs + 1,
+            2 => total + 1000,
+            3 => maxs * 2 + 10,
+            _ => rng.range(1, total + 1000),
+        };
+        let w = |what: &str| {
+            let mut w = witness_base(args, "shard_consolidate", k);
+            w["shards_before"] = json!(before.len());
+            w["target"] = json!(target);
+            w["what"] = json!(what);
+            w
+        };
+        let res = xvcommon::catch(|| -> Result<(usize, usize), Fail> {
+            let before_refs: Vec<&Vec<u8>> = before.values().collect();
+            let (bf, bc) = records_of(&before_refs)?;
+            let ret = consolidate_shards_in_directory(dir.path(), target).map_err(|e| ("consolidate-error".to_string(), format!("{e}")))?;
+            let after = dir_shards(dir.path());
+            let mut ret_bytes: Vec<Vec<u8>> = Vec::new();
+            for s in &ret {
+                let Ok(b) = std::fs::read(&s.path) else {
+                    return fail("consolidate-returned-missing", format!("returned shard {:?} does not exist", s.path));
+                };
+                let name = s.path.file_name().unwrap().to_string_lossy().to_string();
+                let h = mh(&refs::leaf_hash(&b));
+                if name != format!("{}.mdb", h.hex()) || s.shard_hash != h {
+                    return fail("consolidate-name-hash", "returned shard's name / hash is not the hash of its contents");
+                }
+                ret_bytes.push(b);
+            }
+            let ret_refs: Vec<&Vec<u8>> = ret_bytes.iter().collect();
+            let (af, ac) = records_of(&ret_refs)?;
+            // nothing lost
+            for (h, variants) in &bf {
+                let Some(av) = af.get(h) else {
+                    return fail("consolidate-lost-file", "a file record retrievable before is in no returned shard");
+                };
+                // the richest information must survive: flags of the union
+                let want_flags = variants.iter().fold(0u32, |x, f| x | f.metadata.file_flags);
+                let got_flags = av.iter().fold(0u32, |x, f| x | f.metadata.file_flags);
+                if want_flags & !got_flags != 0 {
+                    return fail("consolidate-lost-file-info", "verification / metadata of a file record was lost");
+                }
+                for f in av {
+                    if f.segments != variants[0].segments {
+                        return fail("consolidate-file-changed", "file record segments changed");
+                    }
+                }
+            }
+            for (h, c) in &bc {
+                match ac.get(h) {
+                    Some(c2) if c2 == c => {},
+                    Some(_) => return fail("consolidate-cas-changed", "xorb record changed"),
+                    None => return fail("consolidate-lost-cas", "a xorb record retrievable before is in no returned shard"),
+                }
+            }
+            // nothing invented
+            if af.keys().any(|h| !bf.contains_key(h)) || ac.keys().any(|h| !bc.contains_key(h)) {
+                return fail("consolidate-invented", "a record appeared that was in no input shard");
+            }
+            // every returned shard answers lookups for its own records
+            for b in &ret_bytes {
+                let mut rd = Cursor::new(b.as_slice());
+                let info = MDBShardInfo::load_from_reader(&mut rd).unwrap();
+                for f in info.read_all_file_info_sections(&mut rd).unwrap().iter().take(20) {
+                    match info.get_file_reconstruction_info(&mut rd, &f.metadata.file_hash) {
+                        Ok(Some(g)) if g == *f => {},
+                        _ => return fail("consolidate-lookup-broken", "merged shard does not answer a lookup for its own record"),
+                    }
+                }
+            }
+            // deleted shards: their records must be in the returned set (implied above), and files that
+            // still exist but were not returned must be untouched
+            for (n, b) in &after {
+                if let Some(old) = before.get(n) {
+                    if old != b {
+                        return fail("consolidate-modified-in-place", "an existing shard file was modified in place");
+                    }
+                }
+            }
+            Ok((before.len(), ret.len()))
+        });
+        match res {
+            Ok(Ok((nb, na))) => {
+                rep.count(P, "consolidations", 1);
+                if na < nb {
+                    rep.count(P, "consolidations_that_merged", 1);
+                }
+                let sig = format!("cons|b{}|a{}|t{}", bk(nb), bk(na), if target == 1 { 0 } else if target > total { 2 } else { 1 });
+                rep.case(P, if nb >= 2 { Some(sig) } else { None });
+                if rep.wants_sample(P) && nb >= 2 {
+                    let mut s = w("sample");
+                    s["shards_after"] = json!(na);
+                    rep.sample(P, s);
+                }
+            },
+            Ok(Err((sig, msg))) => {
+                rep.violation(P, &sig, &msg, w(&msg));
+                rep.case(P, None);
+            },
+            Err(pn) => {
+                rep.violation(P, "consolidate-panic", &pn, w(&pn));
+                rep.case(P, None);
+            },
+        }
+    }
+}
+
+// ------------------------------------------------------------------------------------------
+// C18
+
+fn contains_subslice(hay: &[u8], needle: &[u8]) -> bool {
+    hay.windows(needle.len()).any(|w| w == needle)
+}
+
+pub fn run_keyed(args: &Args, rep: &mut Report) {
+    const P: &str = "C18";
+    let rt = rt();
+    for (k, mut rng) in case_iter(args, 0xC18, 40) {
+        let unique = k % 2 == 0; // unique chunk hashes => answers are unique => exact comparison
+        let p = GenParams {
+            n_cas: rng.urange(1, 12),
+            max_chunks_per_cas: *rng.pick(&[5usize, 50, 400]),
+            n_files: rng.urange(0, 12),
+            cas_space: KeySpace::Uniform,
+            chunk_space: if unique { KeySpace::Uniform } else { KeySpace::Collisions },
+            file_space: KeySpace::Uniform,
+            max_group_keys: 3,
+            max_group_chunks: 6,
+            dup_chunks: !unique,
+            flags: None,
+        };
+        let model = gen_model(&mut rng, &p);
+        let truth = truth_of(&model);
+        let qg = QueryGen::new(&truth);
+        let zero_key = rng.chance(1, 6);
+        let key = if zero_key { MerkleHash::default() } else { rand_hash(&mut rng) };
+        let flags = (rng.chance(1, 2), rng.chance(1, 2), rng.chance(1, 2));
+        let w = |what: &str| {
+            let mut w = witness_base(args, "shard_keyed", k);
+            w["flags"] = json!([flags.0, flags.1, flags.2]);
+            w["zero_key"] = json!(zero_key);
+            w["xorbs"] = json!(model.cas.len());
+            w["what"] = json!(what);
+            w
+        };
+        let res = xvcommon::catch(|| -> Result<(u64, u64), Fail> {
+            let src = tempfile::tempdir().unwrap();
+            let dst = tempfile::tempdir().unwrap();
+            let pth = write_model_shard(src.path(), &model)?;
+            let sf = MDBShardFile::load_from_file(&pth).map_err(|e| ("load".to_string(), format!("{e}")))?;
+            let ex = sf
+                .export_as_keyed_shard(dst.path(), key, Duration::from_secs(100_000), flags.0, flags.1, flags.2)
+                .map_err(|e| ("keyed-export-error".to_string(), format!("export_as_keyed_shard: {e}")))?;
+            let bytes = std::fs::read(&ex.path).map_err(|e| ("io".to_string(), format!("{e}")))?;
+            if ex.path.file_name().unwrap().to_string_lossy() != format!("{}.mdb", mh(&refs::leaf_hash(&bytes)).hex()) {
+                return fail("keyed-name-hash", "exported shard's name is not the hash of its contents");
+            }
+            let mut rd = Cursor::new(&bytes);
+            let info = MDBShardInfo::load_from_reader(&mut rd).map_err(|e| ("keyed-load".to_string(), format!("{e}")))?;
+            if info.metadata.chunk_hash_hmac_key != key {
+                return fail("keyed-footer-key", "exported footer does not carry the key");
+            }
+            // chunk lists: every chunk hash replaced by its keyed form; xorb hashes kept
+            let cas = info.read_all_cas_blocks_full(&mut rd).map_err(|e| ("keyed-scan".to_string(), format!("{e}")))?;
+            if cas.len() != model.cas.len() {
+                return fail("keyed-cas-count", "exported shard has a different number of xorbs");
+            }
+            for (c, orig) in cas.iter().zip(model.cas.values()) {
+                if c.metadata.cas_hash != orig.metadata.cas_hash || c.metadata.num_entries != orig.metadata.num_entries || c.metadata.num_bytes_in_cas != orig.metadata.num_bytes_in_cas {
+                    return fail("keyed-xorb-changed", "xorb header changed by keyed export");
+                }
+                for (x, o) in c.chunks.iter().zip(orig.chunks.iter()) {
+                    let want = if zero_key { hb(&o.chunk_hash) } else { refs::hmac(&hb(&o.chunk_hash), &hb(&key)) };
+                    if hb(&x.chunk_hash) != want {
+                        return fail("keyed-chunk-not-hmac", "chunk entry is not hmac(key, original hash)");
+                    }
+                    if x.unpacked_segment_bytes != o.unpacked_segment_bytes || x.chunk_byte_range_start != o.chunk_byte_range_start {
+                        return fail("keyed-chunk-fields", "chunk length / offset changed by keyed export");
+                    }
+                }
+            }
+            // no original chunk hash survives anywhere in the file (full or truncated in the lookup table)
+            if !zero_key {
+                let mut n = 0;
+                for c in model.cas.values() {
+                    for x in c.chunks.iter() {
+                        if n < 300 || rng.chance(1, 20) {
+                            if contains_subslice(&bytes, x.chunk_hash.as_bytes()) {
+                                return fail("keyed-plain-hash-present", "an original chunk hash is present in the keyed shard");
+                            }
+                            n += 1;
+                        }
+                    }
+                }
+            }
+            // lookup tables present / absent as requested, and built from keyed hashes
+            let n_chunks: u64 = model.cas.values().map(|c| c.chunks.len() as u64).sum();
+            if flags.2 {
+                if info.metadata.chunk_lookup_num_entry != n_chunks {
+                    return fail("keyed-chunk-lookup-count", "chunk lookup table entry count wrong");
+                }
+                let t = info.read_all_truncated_hashes(&mut rd).map_err(|e| ("keyed-scan".to_string(), format!("{e}")))?;
+                let mut got: Vec<u64> = t.iter().map(|x| x.0).collect();
+                let mut want: Vec<u64> = cas.iter().flat_map(|c| c.chunks.iter().map(|x| x.chunk_hash[0])).collect();
+                got.sort();
+                want.sort();
+                if got != want {
+                    return fail("keyed-chunk-lookup-keys", "chunk lookup table keys are not the truncated keyed hashes");
+                }
+                if t.windows(2).any(|w2| w2[0].0 > w2[1].0) {
+                    return fail("keyed-chunk-lookup-unsorted", "chunk lookup table of keyed shard is not sorted");
+                }
+            } else if info.metadata.chunk_lookup_num_entry != 0 {
+                return fail("keyed-chunk-lookup-present", "chunk lookup table present although not requested");
+            }
+            if flags.1 {
+                if info.metadata.cas_lookup_num_entry != model.cas.len() as u64 {
+                    return fail("keyed-cas-lookup-count", "cas lookup table entry count wrong");
+                }
+            } else if info.metadata.cas_lookup_num_entry != 0 {
+                return fail("keyed-cas-lookup-present", "cas lookup table present although not requested");
+            }
+            // file records kept or dropped as requested
+            let files = info.read_all_file_info_sections(&mut rd).map_err(|e| ("keyed-scan".to_string(), format!("{e}")))?;
+            if flags.0 {
+                let want: Vec<&MDBFileInfo> = model.files.values().collect();
+                if files.len() != want.len() || files.iter().zip(want.iter()).any(|(a, b)| a != *b) {
+                    return fail("keyed-files-changed", "file records changed by keyed export");
+                }
+                for h in model.files.keys().take(30) {
+                    match info.get_file_reconstruction_info(&mut rd, h) {
+                        Ok(Some(f)) if f == model.files[h] => {},
+                        _ => return fail("keyed-file-lookup", "file lookup in keyed shard fails"),
+                    }
+                }
+            } else if !files.is_empty() || info.metadata.file_lookup_num_entry != 0 {
+                return fail("keyed-files-present", "file records present although not requested");
+            }
+            // expiry was set
+            let now = std::time::SystemTime::now().duration_since(std::time::UNIX_EPOCH).unwrap().as_secs();
+            if info.metadata.shard_key_expiry < now + 100_000 - 30 || info.metadata.shard_key_expiry > now + 100_000 + 30 {
+                return fail("keyed-expiry", "exported shard's expiry is not now + validity");
+            }
+            // dedup through managers: original directory vs keyed directory, unkeyed queries
+            let m_orig = rt.block_on(ShardFileManager::new_in_session_directory(src.path())).map_err(|e| ("manager-open".to_string(), format!("{e}")))?;
+            let m_keyed = rt.block_on(ShardFileManager::new_in_session_directory(dst.path())).map_err(|e| ("manager-open".to_string(), format!("{e}")))?;
+            let mut hits = 0u64;
+            let mut same = 0u64;
+            for _ in 0..120 {
+                let (q, _kind) = qg.gen(&mut rng, &truth);
+                let a0 = rt.block_on(m_orig.chunk_hash_dedup_query(&q)).map_err(|e| ("keyed-query-error".to_string(), format!("{e}")))?;
+                let a1 = rt.block_on(m_keyed.chunk_hash_dedup_query(&q)).map_err(|e| ("keyed-query-error".to_string(), format!("{e}")))?;
+                let t0 = check_answer(&truth, &q, &a0).map_err(|(s, m2)| (format!("orig-{s}"), m2))?;
+                let t1 = check_answer(&truth, &q, &a1).map_err(|(s, m2)| (format!("keyed-{s}"), m2))?;
+                if t1 {
+                    hits += 1;
+                }
+                if unique {
+                    if a0 != a1 {
+                        return fail("keyed-dedup-differs", format!("manager over keyed shard answers differently from the original (orig hit={t0}, keyed hit={t1})"));
+                    }
+                    same += 1;
+                } else if t0 != t1 && !qg.collides(&q[0]) {
+                    return fail("keyed-dedup-differs", "hit/miss status differs between original and keyed shard for a non-colliding query");
+                }
+            }
+            Ok((hits, same))
+        });
+        match res {
+            Ok(Ok((hits, same))) => {
+                rep.count(P, "keyed_exports", 1);
+                rep.count(P, "keyed_dedup_hits", hits);
+                rep.count(P, "keyed_answers_identical", same);
+                rep.count(P, &format!("flags_{}{}{}", flags.0 as u8, flags.1 as u8, flags.2 as u8), 1);
+                if zero_key {
+                    rep.count(P, "zero_key_exports", 1);
+                }
+                rep.case(P, Some(format!("keyed|f{}{}{}|z{}|u{}|x{}", flags.0 as u8, flags.1 as u8, flags.2 as u8, zero_key as u8, unique as u8, bk(model.cas.len()))));
+                if rep.wants_sample(P) {
+                    rep.sample(P, w("sample"));
+                }
+            },
+            Ok(Err((sig, msg))) => {
+                rep.violation(P, &sig, &msg, w(&msg));
+                rep.case(P, None);
+            },
+            Err(pn) => {
+                rep.violation(P, "keyed-panic", &pn, w(&pn));
+                rep.case(P, None);
+            },
+        }
+    }
+}
+
+/// write a shard whose footer carries the given (creation, expiry); returns its path
+fn craft_shard(dir: &Path, model: &Model, creation: u64, expiry: u64, key: Option<MerkleHash>) -> Result<PathBuf, Fail> {
+    let (_, mut bytes) = ser(&to_mem(model))?;
+    let flen = std::mem::size_of::<MDBShardFileFooter>();
+    let fstart = bytes.len() - flen;
+    let mut footer = MDBShardFileFooter::deserialize(&mut Cursor::new(&bytes[fstart..])).map_err(|e| ("footer".to_string(), format!("{e}")))?;
+    footer.shard_creation_timestamp = creation;
+    footer.shard_key_expiry = expiry;
+    if let Some(k) = key {
+        footer.chunk_hash_hmac_key = k;
+    }
+    bytes.truncate(fstart);
+    footer.serialize(&mut bytes).map_err(|e| ("footer".to_string(), format!("{e}")))?;
+    let name = format!("{}.mdb", mh(&refs::leaf_hash(&bytes)).hex());
+    let p = dir.join(name);
+    std::fs::write(&p, &bytes).map_err(|e| ("io".to_string(), format!("{e}")))?;
+    Ok(p)
+}
+
+pub fn run_expiry(args: &Args, rep: &mut Report) {
+    const P: &str = "C18";
+    const MARGIN: u64 = 5;
+    let rt = rt();
+    for (k, mut rng) in case_iter(args, 0xE18, 30) {
+        let dir = tempfile::tempdir().unwrap();
+        let now = std::time::SystemTime::now().duration_since(std::time::UNIX_EPOCH).unwrap().as_secs();
+        let buffer = *rng.pick(&[0u64, 1, 100, 3600, 7 * 24 * 3600, u64::MAX / 2, u64::MAX]);
+        let n = rng.urange(1, 10);
+        // (path, expiry)
+        let mut shards: Vec<(PathBuf, u64)> = Vec::new();
+        for _ in 0..n {
+            let p = GenParams {
+                n_cas: rng.urange(1, 3),
+                max_chunks_per_cas: 5,
+                n_files: rng.urange(0, 2),
+                cas_space: KeySpace::Uniform,
+                chunk_space: KeySpace::Uniform,
+                file_space: KeySpace::Uniform,
+                max_group_keys: 2,
+                max_group_chunks: 2,
+                dup_chunks: false,
+                flags: None,
+            };
+            let m = gen_model(&mut rng, &p);
+            let expiry = match rng.below(9) {
+                0 => u64::MAX,
+                1 => 0,
+                2 => now.saturating_sub(rng.range(MARGIN + 1, 100)),
+                3 => now + rng.range(MARGIN + 1, 100),
+                4 => now.saturating_sub(buffer.min(now)).saturating_sub(rng.range(MARGIN + 1, 50)),
+                5 => now.saturating_sub(buffer.min(now)) + rng.range(MARGIN + 1, 50),
+                6 => now.saturating_sub(rng.range(1000, 10_000_000)),
+                7 => now + rng.range(1000, 10_000_000),
+                _ => u64::MAX - rng.range(0, 3),
+            };
+            let creation = match rng.below(3) {
+                0 => 0,
+                1 => now.saturating_sub(rng.range(0, 1_000_000)),
+                _ => now + 100,
+            };
+            let key = if rng.chance(1, 2) { Some(rand_hash(&mut rng)) } else { None };
+            match craft_shard(dir.path(), &m, creation, expiry, key) {
+                Ok(p2) => shards.push((p2, expiry)),
+                Err(_) => continue,
+            }
+        }
+        let w = |what: &str| {
+            let mut w = witness_base(args, "shard_expiry", k);
+            w["buffer"] = json!(buffer);
+            w["n"] = json!(shards.len());
+            w["what"] = json!(what);
+            w
+        };
+        let res = xvcommon::catch(|| -> Result<(u64, u64, u64), Fail> {
+            let loaded = MDBShardFile::load_all_valid(dir.path()).map_err(|e| ("expiry-load-error".to_string(), format!("{e}")))?;
+            let loaded_paths: BTreeSet<PathBuf> = loaded.iter().map(|s| s.path.clone()).collect();
+            let mgr = rt.block_on(ShardFileManager::new_in_session_directory(dir.path())).map_err(|e| ("manager-open".to_string(), format!("{e}")))?;
+            let reg: BTreeSet<PathBuf> = rt.block_on(mgr.registered_shard_list()).map_err(|e| ("manager-list".to_string(), format!("{e}")))?.iter().map(|s| s.path.clone()).collect();
+            let (mut n_exp, mut n_valid, mut n_del) = (0u64, 0u64, 0u64);
+            for (p2, expiry) in &shards {
+                let p2 = std::path::absolute(p2).unwrap();
+                if expiry.saturating_add(MARGIN) < now {
+                    n_exp += 1;
+                    if loaded_paths.contains(&p2) || reg.contains(&p2) {
+                        return fail("expiry-loaded-expired", format!("a shard expired {}s ago was loaded (load_all_valid={}, manager={})", now - expiry, loaded_paths.contains(&p2), reg.contains(&p2)));
+                    }
+                }
+                if *expiry > now + MARGIN {
+                    n_valid += 1;
+                    if !loaded_paths.contains(&p2) || !reg.contains(&p2) {
+                        return fail("expiry-valid-not-loaded", "a shard that is not expired was not loaded");
+                    }
+                }
+            }
+            MDBShardFile::clean_expired_shards(dir.path(), buffer).map_err(|e| ("expiry-clean-error".to_string(), format!("{e}")))?;
+            for (p2, expiry) in &shards {
+                let exists = p2.exists();
+                let grace_end = expiry.saturating_add(buffer);
+                if grace_end > now + MARGIN && !exists {
+                    return fail("expiry-deleted-early", "a shard was deleted before expiry + grace period");
+                }
+                if grace_end.saturating_add(MARGIN) < now && exists {
+                    return fail("expiry-kept-late", "a shard past expiry + grace period was kept");
+                }
+                if !exists {
+                    n_del += 1;
+                }
+            }
+            Ok((n_exp, n_valid, n_del))
+        });
+        match res {
+            Ok(Ok((e, v, d))) => {
+                rep.count(P, "expired_shards_checked", e);
+                rep.count(P, "valid_shards_checked", v);
+                rep.count(P, "shards_deleted_by_clean", d);
+                rep.case(P, Some(format!("expiry|b{}|e{}v{}d{}", bk(buffer.min(1 << 40) as usize), (e > 0) as u8, (v > 0) as u8, (d > 0) as u8)));
+            },
+            Ok(Err((sig, msg))) => {
+                rep.violation(P, &sig, &msg, w(&msg));
+                rep.case(P, None);
+            },
+            Err(pn) => {
+                rep.violation(P, "expiry-panic", &pn, w(&pn));
+                rep.case(P, None);
+            },
+        }
+    }
+    let _: Option<Value> = None;
+}
